@@ -264,7 +264,17 @@ func (p *C02) Gen(seed uint64, i int, tier string) *scen.Scenario {
 		l := scen.Pick(r, loggers)
 		var entry string
 		name := sevEntryName[sev]
-		switch r.Intn(6) {
+		switch r.Intn(7) {
+		case 6:
+			entry = name
+			switch sev {
+			case model.Info:
+				entry = "Infof"
+			case model.Warn:
+				entry = "Warnf"
+			case model.Error:
+				entry = "Errorf"
+			}
 		case 0:
 			entry = name
 		case 1:
@@ -279,7 +289,7 @@ func (p *C02) Gen(seed uint64, i int, tier string) *scen.Scenario {
 				entry = scen.Pick(r, []string{"Println", "PrintlnContext"})
 			}
 		}
-		if l == 0 && entry != "LogAttrs" && entry != "Logit" && r.Bool() {
+		if l == 0 && entry != "LogAttrs" && entry != "Logit" && !strings.HasSuffix(entry, "f") && r.Bool() {
 			entry = "pkg." + entry
 		}
 		op := scen.Op{Op: "log", L: l, Entry: entry, Lvl: sev, Tok: t}
